@@ -489,6 +489,15 @@ class GenEval(AutoEvaluator):
                     return F.sym("False" if isinstance(node.ops[0], (ast.Is, ast.Eq)) else "True")
         if isinstance(node, (ast.ListComp, ast.GeneratorExp)):
             return self._comprehension(node)
+        if isinstance(node, (ast.Compare, ast.BoolOp)) or (isinstance(node, ast.UnaryOp) and isinstance(node.op, ast.Not)):
+            v = super()._ev(node)
+            if isinstance(v, F.Rat) and not v.is_const():
+                # a test the configuration decides is the constant it evaluates to (`first_order = self.order == 1` used as an index or a key);
+                # tests on what an earlier send left behind stay symbolic: the rules look at them
+                t = truth(v, self.facts)
+                if t is not None and not any(s_.startswith("carry:") for s_ in free_syms(v)):
+                    return F.sym("True" if t else "False")
+            return v
         if isinstance(node, ast.JoinedStr):
             return F.sym("<text>")
         if isinstance(node, ast.BinOp) and isinstance(node.op, ast.Mod) and isinstance(node.left, ast.Constant) and isinstance(node.left.value, str):
@@ -610,6 +619,8 @@ class GenEval(AutoEvaluator):
             return t
         if v.is_const() and v.const_value().denominator == 1:
             return int(v.const_value())
+        if symname(v) in ("True", "False"):
+            return int(symname(v) == "True")
         return None
 
     def _new_dict(self, items, node):
@@ -718,10 +729,9 @@ class GenEval(AutoEvaluator):
                 v = self._ev(node.slice)
             except Unsupported:
                 v = None
-            if v is not None and not is_unknown(v) and not isinstance(v, tuple) and v.is_const() and v.const_value().denominator == 1:
-                k = int(v.const_value())
-                if -len(base) <= k < len(base):
-                    return base[k]
+            k = self._const_key(v)
+            if isinstance(k, int) and -len(base) <= k < len(base):
+                return base[k]
             return Unknown(f"index into a tuple: {ast.unparse(node)}")
         return r
 
